@@ -344,14 +344,9 @@ def run(ctx):
         # no known class is left: KF-C15-1 and KF-C15-2 are repaired, any mismatch is a violation;
         # the renderer's flags only say where to look
         sig = f"c15:variant-differs:{fam}"
-        sml_b, sml_v = [int(x) for x in fl.get("struct_ml", "0/0").split("/")]
-        # round-4 findings, decidable from what the renderer wrote: the ONLY difference class each signature covers
-        if fam == "Parens" and (int(fl.get("typed_paren", "0")) > 0 or int(fl.get("sized_lit_paren", "0")) > 0) and cb != "compile-error" and cv == "compile-error":
-            sig = "c15:parenthesised-literal-under-sized-int-annotation:generated"
-        elif fam == "Parens" and int(fl.get("minbound_paren", "0")) > 0 and cb != "compile-error" and cv == "compile-error":
-            sig = "c15:parenthesised-literal-under-minus:generated"
-        elif sml_b != sml_v and ((sml_b > 0 and sml_v == 0 and cb == "compile-error") or (sml_v > 0 and sml_b == 0 and cv == "compile-error")):
-            sig = "c15:struct-declaration-field-list-ending-in-newline:generated"
+        # KF-C15-5..7 are repaired (467b596, 4ccf78e, 0637485): no known class is left; the renderer's flags stay as hints
+        if False:
+            pass
         elif fam == "Parens" and int(fl.get("tilde_tail", "0")) > 0:
             sig += ":tilde-at-block-value"      # hint only: KF-C15-3 is repaired (3fa327d), a recurrence is a violation
         elif fam == "Comment" and fl["comment_before_else"] == "1" and cb != "compile-error" and cv == "compile-error":
